@@ -81,7 +81,10 @@ def Tok.release : Tok → Tok
 /-- program counter of the actor task -/
 inductive Pc where
   | init                               -- dispatched; `pre_start` not yet run
-  | startFailed                        -- `pre_start` returned `Err`: closure returned `Err(())`
+  | failRelease                        -- `pre_start` returned `Err`: about to `reg.take()` (release the name)
+  | failReport                         -- name released; about to `started_tx.send(Err(error))`
+  | failReturn                         -- failure reported; about to `return Err(())` (drops actor, receiver)
+  | startFailed                        -- closure returned `Err(())`
   | preStarted                         -- `pre_start` ok, registration activated; about to `started_tx.send(Ok(()))`
   | postStart                          -- in `run`: about to call `post_start`
   | atRecv                             -- `recv()`: about to poll the stop channel
@@ -117,6 +120,8 @@ structure St where
   resolved : List (Nat × Res) := []    -- calls that completed, with their result
   issued : Nat := 0                    -- number of calls that entered `sendCheck`
   stopConsumed : Bool := false
+  /-- `started_tx.send(Err(error))` happened: the spawner can observe `SpawnError::Start` -/
+  startReported : Bool := false
   deriving Repr
 
 /-- `MailboxInner::is_closed` -/
@@ -150,6 +155,9 @@ inductive Ev where
   | dropSenders
   -- the actor task
   | preStart (ok : Bool)
+  | releaseFailed              -- failed start: `reg.take()`
+  | reportFailure              -- failed start: `started_tx.send(Err(error))`
+  | returnFailed               -- failed start: `return Err(())`
   | signalStarted
   | postStart (ok : Bool)
   | pollStop
@@ -201,7 +209,19 @@ def step (s : St) : Ev → Option St
     match s.pc with
     | .init =>
       if ok then some ({ s with pc := .preStarted, tok := s.tok.activate }.obs (.hook .preStart true))
-      else some ({ s with pc := .startFailed, tok := s.tok.release, rxAlive := false }.obs (.hook .preStart false))
+      else some ({ s with pc := .failRelease }.obs (.hook .preStart false))
+    | _ => none
+  | .releaseFailed =>
+    match s.pc with
+    | .failRelease => some { s with pc := .failReport, tok := s.tok.release }
+    | _ => none
+  | .reportFailure =>
+    match s.pc with
+    | .failReport => some { s with pc := .failReturn, startReported := true }
+    | _ => none
+  | .returnFailed =>
+    match s.pc with
+    | .failReturn => some { s with pc := .startFailed, rxAlive := false }
     | _ => none
   | .signalStarted =>
     match s.pc with
@@ -326,6 +346,9 @@ structure Script where
 def nextEvents (sc : Script) (s : St) : List Ev :=
   match s.pc with
   | .init => [.preStart sc.preStart]
+  | .failRelease => [.releaseFailed]
+  | .failReport => [.reportFailure]
+  | .failReturn => [.returnFailed]
   | .startFailed => []
   | .preStarted => [.signalStarted]
   | .postStart => [.postStart sc.postStart]
@@ -356,7 +379,7 @@ def settle (sc : Script) : Nat → St → St
       | none => s
 
 /-- rounds `settle` needs at most: 3 per queued message + the fixed lifecycle steps -/
-def settleFuel (s : St) : Nat := 3 * s.queue.length + 16
+def settleFuel (s : St) : Nat := 3 * s.queue.length + 20
 
 /-! ### whole operations as the harness thread performs them back to back (one legal schedule) -/
 
